@@ -36,6 +36,11 @@ func (p *ConsensusParameters) SanityCheck() error {
 	if unsafeFlags && !flags.DebugDontBlameOasis() {
 		return fmt.Errorf("one or more unsafe debug flags set")
 	}
+	// An election that cannot elect the minimum number of validators fails, so a minimum above the
+	// maximum would make every election fail. (A non-positive maximum is rejected elsewhere.)
+	if p.MaxValidators > 0 && p.MinValidators > p.MaxValidators {
+		return fmt.Errorf("minimum number of validators must not exceed the maximum number of validators")
+	}
 	return nil
 }
 
